@@ -73,11 +73,14 @@ def argJ : Arg → Json
 def dirJ (d : Directive) : Json :=
   .obj [kind "Directive", ("name", nameJ d.name), ("arguments", .arr (d.args.map argJ))]
 
+/-- `impl JsonPrintable for SelectionSet` -/
+def selSetJ (sels : List Json) : Json := .obj [kind "SelectionSet", ("selections", .arr sels)]
+
 /-- `write_selection_set`: nothing at all for an empty selection list -/
 def selSetKV (sels : List Json) : List (String × Json) :=
   match sels with
   | [] => []
-  | _ :: _ => [("selectionSet", .obj [kind "SelectionSet", ("selections", .arr sels)])]
+  | _ :: _ => [("selectionSet", selSetJ sels)]
 
 def optNameKV (key : String) : Option (Name × Pos) → List (String × Json)
   | none => []
@@ -115,7 +118,7 @@ def optDefaultKV : Option Value → List (String × Json)
 /-- `impl JsonPrintable for VariableDefinition` -/
 def varDefJ (v : VarDef) : Json :=
   .obj ([kind "VariableDefinition", ("variable", varJ v.name), ("type", typeJ v.ty)] ++ optDefaultKV v.default ++
-    [("directives", .arr [])])
+    [("directives", .arr (v.dirs.map dirJ))])
 
 /-- `impl JsonPrintable for OperationDefinition` -/
 def opJ (o : OperationDef) : Json :=
